@@ -19,6 +19,8 @@ BATTERY = "c07_battery.py"
 def make_specs():
     # "makes later changes in the tree go unreported": exception freedom AND the watch-map contracts (C02's) of the reader
     out = [ReadEvents(IRWorld(), PROP, want=("safety", "maps"))]
+    from specs.inotify_read import ForgetPaths
+    out.append(ForgetPaths(IRWorld(), PROP))     # called from the reader's loop: must not raise
     G = c08.GWorld()
     out += [c08.GroupEvents(G, PROP), c08.BufferRun(G, PROP)]
     out.append(inotify_emitter.QueueEvents(inotify_emitter.World(), PROP, want=("root",)))
